@@ -212,6 +212,14 @@ static void hammer(const char* name, Storage& st, int nthreads, long iters, bool
                         (void)l->max_node_size();
                         l->deallocate_node(x, 24, 8);
                     }
+                    if (use_proxy)
+                    { // the proxy of a *const* storage (a const reference or member): queries through it hold the mutex too
+                        const Storage& cst = st;
+                        auto           l = cst.lock();
+                        (void)l->max_node_size();
+                        (void)l->max_array_size();
+                        (void)l->max_alignment();
+                    }
                     if (use_proxy && i % 4 == 0)
                     { // a proxy that is moved (handed out of a function, stored in a session object): the moved-from
                       // temporary dies first and must not unlock
